@@ -1001,7 +1001,13 @@ func (r *multiCIDRRangeAllocator) orderedMatchingClusterCIDRs(node *corev1.Node,
 		return nil, err
 	}
 	if clusterCIDRList, ok := r.cidrMap[defaultSelector.String()]; ok {
-		matchingCIDRs = append(matchingCIDRs, clusterCIDRList...)
+		for _, clusterCIDR := range clusterCIDRList {
+			// Same rule as above: terminating ClusterCIDRs are only
+			// considered for a release operation.
+			if !occupy || !clusterCIDR.Terminating {
+				matchingCIDRs = append(matchingCIDRs, clusterCIDR)
+			}
+		}
 	}
 	return matchingCIDRs, nil
 }
